@@ -70,6 +70,9 @@ class Partition:
     directed_pairs: frozenset[tuple[str, str]]
     _network: Network
     _healed: bool = False
+    # Network._heal_generation when this partition was created; a later
+    # Network.heal_partition() has already dropped this partition's references.
+    _generation: int = 0
 
     @property
     def is_active(self) -> bool:
@@ -88,6 +91,11 @@ class Partition:
         if self._healed:
             return
         self._healed = True
+        if self._generation != self._network._heal_generation:
+            # Network.heal_partition() removed this partition after it was
+            # created; the references now held on its pairs belong to
+            # partitions created since.
+            return
         _release_pairs(self._network._partitioned_pairs, self.pairs)
         _release_pairs(self._network._directed_partitions, self.directed_pairs)
         logger.info(
@@ -127,6 +135,10 @@ class Network(Entity):
     # Directed partition state: (source, dest) tuple (asymmetric) -> number of
     # active partitions blocking it
     _directed_partitions: dict[tuple[str, str], int] = field(default_factory=dict, init=False)
+
+    # Incremented by heal_partition(); Partition handles created before the
+    # last heal_partition() hold no references any more
+    _heal_generation: int = field(default=0, init=False)
 
     # Track all known entities for partition validation
     _known_entities: dict[str, Entity] = field(default_factory=dict, init=False)
@@ -271,6 +283,7 @@ class Network(Entity):
             pairs=frozenset(bidirectional_pairs),
             directed_pairs=frozenset(directed_pairs),
             _network=self,
+            _generation=self._heal_generation,
         )
 
     def heal_partition(self) -> None:
@@ -279,6 +292,7 @@ class Network(Entity):
         num_directed = len(self._directed_partitions)
         self._partitioned_pairs.clear()
         self._directed_partitions.clear()
+        self._heal_generation += 1
         logger.info(
             "[%s] All partitions healed: %d bidirectional + %d directed pairs restored",
             self.name,
